@@ -1,4 +1,5 @@
 import Glom.Lemmas.C07
+import Glom.Lemmas.RepIndMain
 import Glom.Model.Frames
 /-
   C07 — Scope bindings are lexically scoped, chain forward, never outlive the call.
@@ -144,6 +145,83 @@ theorem c07_gvar_write_frames_untouched {σ : Type} [ScopeAlg σ] (p : Prims) (r
   cases r1 with
   | error e => simp at hr
   | ok u => simp [M.pure_apply] at hr; exact hr.2.symm
+
+/-- **The interpreter is lexically scoped (refinement).**  For *every* scope representation that
+    satisfies the laws — in particular glom's ChainMap of frames — `_glom(target, spec, scope)`
+    computes exactly what the reference semantics computes on the canonical lexical scope
+    `obsOf scope` (visible bindings as a function, mode as a lexical parameter): the same state
+    (call log, ScopeVars), the same value or exception, and a resulting scope with the same
+    observations.  For every spec, target, primitive instantiation and fuel. -/
+theorem c07_refines_lexical {σ : Type} [ScopeAlg σ] [LawfulScope σ] (p : Prims) (fuel : Nat) (spec : Spec)
+    (t : V) (sc : σ) :
+    interp (σ := Obs) p fuel spec t (obsOf sc) = mapSc obsOf (interp (σ := σ) p fuel spec t sc) :=
+  interp_sim p fuel spec t sc
+
+/-- **The outcome depends on the scope only through what is lexically visible**: two scopes —
+    even of different representations — with the same visible bindings, named specs and mode give
+    the same state and the same value or error. -/
+theorem c07_outcome_depends_on_observations {σ τ : Type} [ScopeAlg σ] [LawfulScope σ] [ScopeAlg τ] [LawfulScope τ]
+    (p : Prims) (fuel : Nat) (spec : Spec) (t : V) (a : σ) (b : τ) (h : obsOf a = obsOf b) (st : St) :
+    (interp p fuel spec t a st).1 = (interp p fuel spec t b st).1 ∧
+    ((interp p fuel spec t a st).2.map Prod.fst) = ((interp p fuel spec t b st).2.map Prod.fst) := by
+  have ha := congrFun (interp_sim (σ := σ) p fuel spec t a) st
+  have hb := congrFun (interp_sim (σ := τ) p fuel spec t b) st
+  rw [h] at ha
+  have hab := ha.symm.trans hb
+  simp only [mapSc, M.bind_apply] at hab
+  rcases hx : interp p fuel spec t a st with ⟨s1, r1⟩
+  rcases hy : interp p fuel spec t b st with ⟨s2, r2⟩
+  rw [hx, hy] at hab
+  cases r1 <;> cases r2 <;> simp_all [M.pure_apply, Except.map]
+
+/-- the root scope `glom()` builds has the observations of the lexical root environment -/
+theorem c07_root_obs (st : St) (callerScope : List (String × V)) :
+    obsOf (rootScope st callerScope).1 = (rootObs st callerScope).1 ∧
+    (rootScope st callerScope).2 = (rootObs st callerScope).2 := by
+  refine ⟨?_, rfl⟩
+  simp only [rootScope, rootObs]
+  apply Obs.ext'
+  · funext k
+    show Frames.lookup _ k = _
+    simp only [Frames.lookup]
+    suffices hh : ∀ (acc : List (String × V)) (f : String → Option V), (∀ k, attrGet acc k = f k) →
+        attrGet (callerScope.foldl (fun acc kv => attrSet acc kv.1 kv.2) acc) k =
+          (callerScope.foldl (fun f kv => fun k' => if k' = kv.1 then some kv.2 else f k') f) k by
+      rw [hh _ (fun k' => if k' = "globals" then some (V.vars st.gvars.length) else Option.none)]
+      · cases h : (callerScope.foldl (fun f kv => fun k' => if k' = kv.1 then some kv.2 else f k')
+          (fun k' => if k' = "globals" then some (V.vars st.gvars.length) else Option.none)) k <;> simp
+      · intro k'
+        by_cases hk : k' = "globals" <;> simp [attrGet, hk]
+        intro h; exact absurd h.symm hk
+    induction callerScope with
+    | nil => intro acc f hf; exact hf k
+    | cons kv r ih =>
+      intro acc f hf
+      simp only [List.foldl_cons]
+      apply ih
+      intro k'
+      rw [attrGet_attrSet]
+      split <;> simp_all
+  · funext k; rfl
+  · rfl
+  · rfl
+
+/-- **The code-shaped model (ChainMap frames) and the reference (lexical environment) agree on
+    every top-level call.** -/
+theorem c07_model_eq_reference (p : Prims) (fuel : Nat) (spec : Spec) (t : V) (callerScope : List (String × V))
+    (st : St) : glomTop p fuel spec t callerScope st = glomTopLex p fuel spec t callerScope st := by
+  unfold glomTop glomTopLex
+  obtain ⟨h1, h2⟩ := c07_root_obs st callerScope
+  rcases hr : rootScope st callerScope with ⟨root, st0⟩
+  rcases hl : rootObs st callerScope with ⟨rootL, st0L⟩
+  rw [hr] at h1 h2; rw [hl] at h1 h2
+  simp only at h1 h2 ⊢
+  subst h1; subst h2
+  have := congrFun (interp_sim (σ := Frames) p fuel spec t root) st0
+  rw [this]
+  simp only [mapSc, M.bind_apply, topResult]
+  rcases interp p fuel spec t root st0 with ⟨s1, r1⟩
+  cases r1 <;> rfl
 
 /-! ### non-vacuity -/
 
